@@ -495,9 +495,28 @@ def first_diff(a, b, path=''):
     return None
 
 
+_BIG = []
+
+
+def big_model():
+    """A model whose persisted form (plain and compressed) is far longer than any generated one: persisted FIRST
+    to the same path on every other round trip, so that the history `persist(F) ; … ; persist(F) ; construct(F)`
+    with a shrinking payload is exercised (the second persist must replace the file, not overwrite its head)."""
+    if not _BIG:
+        import random as _r
+        from xlcalculator import ModelCompiler
+        rr = _r.Random(12)
+        d = {f'Big!A{i}': ''.join(chr(rr.randrange(33, 0x24f)) for _ in range(120)) for i in range(1, 160)}
+        d.update({f'Big!B{i}': f'=LEN(A{i})+SUM(A1:A{i})' for i in range(1, 160)})
+        _BIG.append(ModelCompiler().read_and_parse_dict(d))
+    return _BIG[0]
+
+
 def round_trip(m, ext, tmpdir, n, build_code=True):
     from xlcalculator import Model
     fname = os.path.join(tmpdir, f'm{n}{ext}')
+    if n % 2 == 0:
+        big_model().persist_to_json_file(fname)
     m.persist_to_json_file(fname)
     with open(fname, 'rb') as fh:
         head = fh.read(2)
